@@ -41,15 +41,6 @@ def Excl_contigFlagWrong (v : Dense) : Bool :=
   v.view && !v.ap.o.nonContig && v.old.isNone && v.win.len != 1 && !isScalar v.ap.shape &&
     v.ap.strides != Dense.defaultStrides v.ap.o.col v.ap.shape
 
-/-- F28 (C03): `AP.T` gives a two-dimensional vector the strides (1,1) whatever its own strides were:
-    transposing a vector view with a non-unit stride reads the wrong cells. -/
-def Excl_vectorT (t : Dense) (axes : List Int) : Bool :=
-  match t.ap.shape, t.ap.strides with
-  | [a, b], [s0, s1] =>
-    isVector t.ap.shape && (axes.isEmpty || axes.head? != some 0) &&
-      ((a > 1 && s0 != 1) || (b > 1 && s1 != 1))
-  | _, _ => false
-
 /-- F3 (C13): `Shape.S` never rounds a stepped length up (`AP.S` does, on every axis but the first). -/
 def Excl_shapeSFloor (shape : Shape) (sls : List (Option Sl)) : Bool :=
   (List.zip shape (sls ++ List.replicate shape.length none)).any (fun (d, sl) =>
@@ -93,19 +84,6 @@ def Excl_reuseOrderFlip (t : Dense) (reuse : Option Dense) : Bool :=
   match reuse with
   | some r => r.ap.o.col != t.ap.o.col && t.win.len != 1
   | none => false
-
-/-- F36 (C16): comparisons and MinBetween/MaxBetween allocate their result row-major and (the
-    iterator decision having been taken before the allocation) fill it in the storage order of a
-    column-major operand. -/
-def Excl_rowMajorResult (t : Dense) (reuseGiven unsafe_ : Bool) : Bool :=
-  t.ap.o.col && !reuseGiven && !unsafe_ && t.win.len != 1 && !isScalar t.ap.shape
-
-/-- F28 (second form): `Transpose()` of a *vector* with a pending (no-op) transpose moves no data but
-    overwrites the strides with the default ones: a vector view with a non-unit stride then reads
-    other cells. -/
-def Excl_transposeVectorStrides (t : Dense) : Bool :=
-  t.old.isSome && isVector t.ap.shape && !isScalar t.ap.shape &&
-    t.ap.strides != Dense.defaultStrides t.ap.o.col t.ap.shape
 
 /-- F39 (C19/C04): a physical transposition (explicit, or implied by `Reshape` / a second `T`) of a
     tensor whose storage is shared with other live tensors (its views, its parent) moves the cells
